@@ -682,6 +682,24 @@ def border_scripts(rng, tier):
         for i in range(0, len(hs), 8):
             out.append(dict(tree=["script", ["factory", "-"], ["props"], ["globals", "gList"]] +
                             [["on", "h%d" % j, ["v"]] + b for j, b in enumerate(hs[i:i + 8])], pre=[], kind="border-list-functions"))
+    # `the P of <obj>` (61 / 62) with objects whose names look like the decompiler's own owner nodes (F142): leading underscore, tell_obj
+    odd = ["_y", "_movie", "_system", "_", "__x", "tell_obj", "me2", "x_"]
+    for kind in ("plain", "props"):
+        hs = []
+        for w in odd:
+            for vk in ("l", "p", "g"):
+                o = [vk, w]
+                params = [w] if vk == "p" else ["v"]
+                body = ([["set", o, ["i", num()]]] if vk != "p" else []) + \
+                       [["set", ["l", "x"], ["op", "foo", o]], ["set", ["op", "bar", o], ["i", num()]],
+                        ["call", "put", ["b", "add", ["op", "foo", o], ["i", 1]]],
+                        ["tell", ["c", "window", ["s", S("a")]], ["set", ["op", "foo", o], ["the", "sys", 0x1b]], ["set", ["the", "sys", 0x1b], ["op", "foo", o]]]]
+                if kind != "plain":
+                    body = body[:-1]          # F131: no tell blocks in class bodies
+                hs.append(["on", "h%d" % len(hs), params] + body)
+        for i in range(0, len(hs), 6):
+            out.append(dict(tree=["script", ["factory", "-"], ["props"] + (["pSpeed"] if kind == "props" else []), ["globals"]] +
+                            [h[:1] + ["h%d" % j] + h[2:] for j, h in enumerate(hs[i:i + 6])], pre=[], kind="border-underscore-objects"))
     # JavaScript's reserved words as local variables, parameters and handler names (plain scripts: every handler is a function)
     words = (JS_RESERVED_IDS + JS_STRICT_RESERVED_IDS) if tier != "quick" else (JS_RESERVED_IDS[::3] + JS_STRICT_RESERVED_IDS[::3])
     for w in words:
@@ -754,6 +772,9 @@ def features(h, script_globals=(), handler_names=()):
                 f.add("F22")
         if tag == "mov" and t[1] == "ancestor":
             f.add("F124")
+        if tag == "op" and isinstance(t[2], list) and len(t[2]) == 2 and t[2][0] in ("l", "p", "g", "r") and isinstance(t[2][1], str) \
+                and (t[2][1].startswith("_") or t[2][1] == "tell_obj"):
+            f.add("F142")
         if tag == "c" and len(t) >= 3 and t[1].lower() in LIST_FUNCTIONS and isinstance(t[2], list) and t[2][:1] == ["y"]:
             f.add("F140")
         if tag == "c" and len(t) == 2 and t[1] not in handler_names:
